@@ -1,0 +1,17 @@
+// Copyright JAMF Software, LLC
+
+//go:build verif
+
+package table
+
+import "github.com/lni/dragonboat/v4"
+
+// VerifReconcile runs one reconciliation pass immediately (the periodic loop only fires every 30s).
+func (m *Manager) VerifReconcile() error {
+	return m.reconcile()
+}
+
+// VerifDiffTables exposes the pure catalogue-vs-running-shards diff.
+func VerifDiffTables(tables map[string]Table, raftInfo []dragonboat.ShardInfo) (toStart map[uint64]Table, toStop []uint64) {
+	return diffTables(tables, raftInfo)
+}
